@@ -2,9 +2,12 @@
 //! the implementation's outputs.  Used to SEARCH for failing inputs; a check
 //! never passes because of them.
 use std::collections::{HashMap, HashSet};
+use std::sync::{Arc, Mutex};
+use std::time::{Duration, Instant};
 
 use crate::common::*;
 use crate::gen::*;
+use crate::refimpl::*;
 use crate::streams::{json_str, opt_str, opt_u64};
 
 pub struct Report {
@@ -31,17 +34,743 @@ impl Report {
     }
 }
 
+/// progress marker for the hang watchdog
+pub type Progress = Arc<Mutex<(Instant, String)>>;
+pub fn tick(p: &Progress, what: &str) { let mut g = p.lock().unwrap(); g.0 = Instant::now(); g.1 = what.to_string(); }
+
+pub struct Ctx { pub seed: u64, pub big: bool, pub prop: String, pub progress: Progress, pub cases: Vec<AlgoCase> }
+
 pub fn run(opt: &HashMap<String, String>) -> i32 {
-    let name = opt_str(opt, "oracle", "");
+    let name = opt_str(opt, "oracle", "").to_string();
     let seed = opt_u64(opt, "seed", 1);
     let thorough = opt_str(opt, "tier", "quick") == "thorough";
     let enlarge = opt_u64(opt, "enlarge", 0) == 1;
-    let mut rep = Report::new();
-    match name {
-        "shape_sweep" => shape_sweep(&mut rep, seed, thorough || enlarge),
-        _ => { eprintln!("unknown oracle {}", name); return 2; }
+    let prop = opt_str(opt, "prop", "").to_string();
+    let cases = opt.get("cases").map(|p| parse_cases(p)).unwrap_or_default();
+    let progress: Progress = Arc::new(Mutex::new((Instant::now(), "start".to_string())));
+    let ctx = Ctx { seed, big: thorough || enlarge, prop: prop.clone(), progress: progress.clone(), cases };
+    let limit = Duration::from_secs(opt_u64(opt, "hang-secs", 40));
+    let (tx, rx) = std::sync::mpsc::channel();
+    std::thread::Builder::new().stack_size(64 << 20).spawn(move || {
+        crate::common::install_panic_hook();
+        let mut rep = Report::new();
+        let ok = dispatch(&name, &ctx, &mut rep);
+        let _ = tx.send((ok, rep));
+    }).unwrap();
+    loop {
+        match rx.recv_timeout(Duration::from_millis(200)) {
+            Ok((true, rep)) => return rep.print(),
+            Ok((false, _)) => { eprintln!("unknown oracle"); return 2; }
+            Err(std::sync::mpsc::RecvTimeoutError::Timeout) => {
+                let g = progress.lock().unwrap();
+                if g.0.elapsed() > limit {
+                    let mut rep = Report::new();
+                    rep.evaluations = 1;
+                    rep.violation(format!("{} hang: no result within {} s on case: {}", prop, limit.as_secs(), g.1));
+                    let rc = rep.print();
+                    std::process::exit(rc);
+                }
+            }
+            Err(_) => { eprintln!("oracle thread died"); return 3; }
+        }
     }
-    rep.print()
+}
+
+fn dispatch(name: &str, ctx: &Ctx, rep: &mut Report) -> bool {
+    match name {
+        "shape_sweep" => shape_sweep(rep, ctx.seed, ctx.big),
+        "wf" => sweep(ctx, rep, &check_wf),
+        "monotone" => sweep(ctx, rep, &check_monotone),
+        "criterion" => sweep(ctx, rep, &check_replay),
+        "greedy" => sweep(ctx, rep, &check_replay),
+        "safety" => sweep(ctx, rep, &check_safety),
+        "single_exact" => sweep_single(ctx, rep),
+        "agree" => agree(ctx, rep),
+        "scale" => scale(ctx, rep),
+        "order" => order_only(ctx, rep),
+        "permute" => permute(ctx, rep),
+        "slot_probe" => slot_probe(ctx, rep),
+        "cost" => cost(ctx, rep),
+        "reuse" => reuse(ctx, rep),
+        _ => return false,
+    }
+    true
+}
+
+/// cases handed over by check.py (disagreements of the correspondence):
+/// lines "<stream> case64 pf al me n [b;b;...]"
+fn parse_cases(path: &str) -> Vec<AlgoCase> {
+    let mut out = vec![];
+    if let Ok(s) = std::fs::read_to_string(path) {
+        for line in s.lines() {
+            let t: Vec<&str> = line.split_whitespace().collect();
+            if t.len() < 7 || !(t[1] == "case64" || t[1] == "case32") { continue; }
+            let bits: Vec<u64> = t[6].trim_matches(|c| c == '[' || c == ']').split(';').filter(|x| !x.is_empty()).filter_map(|x| x.parse().ok()).collect();
+            if let (Ok(al), Ok(me), Ok(n)) = (t[3].parse::<u8>(), t[4].parse::<u8>(), t[5].parse::<u64>()) {
+                out.push(AlgoCase { algo: al, method: me, wide: t[1] == "case64", n, bits, family: "disagreement" });
+            }
+        }
+    }
+    out
+}
+
+// ------------------------------------------------------------------ helpers
+pub fn vals_of(c: &AlgoCase) -> Vec<f64> {
+    c.bits.iter().map(|&b| if c.wide { f64::from_bits(b) } else { f32::from_bits(b as u32) as f64 }).collect()
+}
+pub fn height(c: &AlgoCase, s: &StepB) -> f64 {
+    if c.wide { f64::from_bits(s.bits) } else { f32::from_bits(s.bits as u32) as f64 }
+}
+fn tol(c: &AlgoCase) -> f64 { if c.wide { 1e-9 } else { 1e-3 } }
+fn scale_of(v: &[f64]) -> f64 { v.iter().fold(0.0f64, |m, x| m.max(x.abs())).max(f64::MIN_POSITIVE) }
+
+/// Rust-only case generator: larger sizes than the model-evaluated stream.
+fn oracle_cases(ctx: &Ctx, count: usize, maxn: u64, maxn_prim: u64) -> Vec<AlgoCase> {
+    let mut rng = Rng::new(ctx.seed.wrapping_mul(7919) ^ hash64(&[ctx.prop.len() as u64, ctx.prop.bytes().map(|b| b as u64).sum()]));
+    let mut out = ctx.cases.clone();
+    // also shrunk variants of handed-over cases: first k observations
+    for c in ctx.cases.iter().take(20) {
+        for keep in [3u64, 4, 5, 6, 8] {
+            if keep < c.n {
+                let n = c.n as usize; let k = keep as usize;
+                let mut bits = vec![];
+                let mut idx = 0;
+                for i in 0..n { for j in i + 1..n { if i < k && j < k { bits.push(c.bits[idx]); } idx += 1; } }
+                if idx == c.bits.len() { out.push(AlgoCase { n: keep, bits, ..c.clone() }); }
+            }
+        }
+    }
+    while out.len() < count + ctx.cases.len() {
+        let algo = rng.below(5) as u8;
+        let method = loop { let m = rng.below(7) as u8; if accepts(algo, m) { break m; } };
+        let wide = rng.below(3) != 0;
+        let cap = if algo == 4 { maxn_prim } else { maxn };
+        let n = match rng.below(10) { 0 => rng.below(4), 1..=5 => rng.range(2, cap.min(24)), 6..=8 => rng.range(cap.min(16), cap.min(80)), _ => rng.range(cap / 2, cap) };
+        let fam = FAMILIES[rng.below(FAMILIES.len() as u64) as usize];
+        let fam = if rng.below(3) == 0 { ["lattice", "duppoints", "neartie", "allequal"][rng.below(4) as usize] } else { fam };
+        let v = matrix_f64(&mut rng, n as usize, fam, wide);
+        out.push(AlgoCase { algo, method, wide, n, bits: to_bits(&v, wide), family: fam });
+    }
+    out
+}
+
+type Checker = dyn Fn(&Ctx, &AlgoCase, &Outcome) -> Option<String>;
+
+fn sweep(ctx: &Ctx, rep: &mut Report, check: &Checker) {
+    let heavy = ctx.prop == "C02" || ctx.prop == "C03";
+    let (count, maxn, maxp) = match (ctx.big, heavy) {
+        (false, false) => (700, 160, 48), (true, false) => (3000, 400, 110),
+        (false, true) => (500, 70, 40), (true, true) => (2000, 160, 80),
+    };
+    for c in oracle_cases(ctx, count, maxn, maxp) {
+        tick(&ctx.progress, &c.describe());
+        let out = run_fresh_w(c.wide, c.algo, c.method, c.n, &c.bits);
+        rep.evaluations += 1;
+        if c.n >= 3 { rep.nontrivial.insert(c.key()); }
+        if let Some(v) = check(ctx, &c, &out) {
+            rep.violation(format!("{} violated: {} :: {}", ctx.prop, v, shorten(&c)));
+        }
+        if c.n == 4 { rep.sample(format!("{} -> {}", c.describe(), join(&tokens(&out), " "))); }
+    }
+}
+
+fn shorten(c: &AlgoCase) -> String {
+    let d = c.describe();
+    if d.len() > 1800 { format!("{}... (n={}, {} entries; hash {:x})", &d[..1800], c.n, c.bits.len(), c.key()) } else { d }
+}
+
+// ------------------------------------------------------------------ C01
+pub fn wf_steps(n: usize, steps: &[StepB]) -> Option<String> {
+    if n <= 1 { return if steps.is_empty() { None } else { Some(format!("n={} but {} steps", n, steps.len())) }; }
+    if steps.len() != n - 1 { return Some(format!("{} steps for n={}", steps.len(), n)); }
+    let mut used = vec![false; 2 * n - 1];
+    let mut size = vec![1usize; 2 * n - 1];
+    for (i, s) in steps.iter().enumerate() {
+        if !(s.c1 < s.c2) { return Some(format!("step {}: labels not ordered/distinct ({}, {})", i, s.c1, s.c2)); }
+        if s.c2 >= n + i { return Some(format!("step {}: label {} >= n+i={}", i, s.c2, n + i)); }
+        if used[s.c1] || used[s.c2] { return Some(format!("step {}: label reused ({}, {})", i, s.c1, s.c2)); }
+        used[s.c1] = true; used[s.c2] = true;
+        size[n + i] = size[s.c1] + size[s.c2];
+        if s.size != size[n + i] { return Some(format!("step {}: size {} != {}+{}", i, s.size, size[s.c1], size[s.c2])); }
+    }
+    if steps[n - 2].size != n { return Some("last size != n".to_string()); }
+    None
+}
+
+fn check_wf(_: &Ctx, c: &AlgoCase, o: &Outcome) -> Option<String> {
+    match o {
+        Outcome::Ok { steps, .. } => wf_steps(c.n as usize, steps),
+        Outcome::Panic(k, m) => Some(format!("panic class {} ({})", k, m)),
+    }
+}
+
+// ------------------------------------------------------------------ C05
+fn check_monotone(_: &Ctx, c: &AlgoCase, o: &Outcome) -> Option<String> {
+    if !sorts(c.method) { return None; }
+    if let Outcome::Ok { steps, .. } = o {
+        for i in 1..steps.len() {
+            let (a, b) = (height(c, &steps[i - 1]), height(c, &steps[i]));
+            if !(a <= b) { return Some(format!("inversion at step {}: {:e} then {:e}", i, a, b)); }
+        }
+    }
+    None
+}
+
+// ------------------------------------------------------------------ C12
+fn check_safety(_: &Ctx, c: &AlgoCase, o: &Outcome) -> Option<String> {
+    match o {
+        Outcome::Panic(k, m) => Some(format!("panic class {} ({}) in {} profile", k, m, crate::streams::profile_name())),
+        Outcome::Ok { steps, obs, .. } => {
+            if c.n <= 1 && (!steps.is_empty() || *obs != 0) { return Some("n <= 1 must give the empty dendrogram".to_string()); }
+            let nonneg = vals_of(c).iter().all(|&x| x >= 0.0);
+            for (i, s) in steps.iter().enumerate() {
+                let h = height(c, s);
+                if !h.is_finite() { return Some(format!("step {} height {:e} not finite", i, h)); }
+                if nonneg && h < 0.0 { return Some(format!("step {} height {:e} negative on non-negative input", i, h)); }
+            }
+            None
+        }
+    }
+}
+
+// ------------------------------------------------------------------ C02 / C03
+/// Replay the returned steps on the independent reference matrix: the height
+/// must be the reference dissimilarity of the merged pair (C02) and minimal
+/// among all current pairs (C03), both up to the property's tolerance.
+fn check_replay(ctx: &Ctx, c: &AlgoCase, o: &Outcome) -> Option<String> {
+    let steps = match o { Outcome::Ok { steps, .. } => steps, Outcome::Panic(..) => return None };
+    let n = c.n as usize;
+    if n < 2 || wf_steps(n, steps).is_some() { return None; }  // malformed output is C01's business
+    let v = vals_of(c);
+    let sc = scale_of(&v);
+    let sq = on_squares(c.method);
+    // tolerance accumulates over the depth of nested updates
+    let t = tol(c) * (1.0 + (n as f64).log2());
+    let close = |h: f64, r: f64| -> bool {
+        // r is in the squared domain for squared methods
+        if sq { (h * h - r).abs() <= t * sc * sc || (h - r.max(0.0).sqrt()).abs() <= t * sc } else { (h - r).abs() <= t * sc }
+    };
+    let mut rp = Replay::new(n, &v, c.method);
+    for (i, s) in steps.iter().enumerate() {
+        let h = height(c, s);
+        let dref = rp.full.get(s.c1, s.c2);
+        if ctx.prop == "C02" {
+            if !close(h, dref) { return Some(format!("step {}: height {:e} but reference criterion {:e}{}", i, h, if sq { dref.max(0.0).sqrt() } else { dref }, "")); }
+            if let Some(dd) = direct_criterion(n, &v, c.method, &rp.members[s.c1], &rp.members[s.c2]) {
+                if !close(h, dd) { return Some(format!("step {}: height {:e} but criterion from the original matrix {:e}", i, h, if sq { dd.max(0.0).sqrt() } else { dd })); }
+            }
+        } else {
+            let (m1, _, arg) = rp.min2();
+            let bad = if sq { dref - m1 > t * sc * sc && dref.max(0.0).sqrt() - m1.max(0.0).sqrt() > t * sc } else { dref - m1 > t * sc };
+            if bad { return Some(format!("step {} merges ({}, {}) at {:e} but clusters {:?} are closer: {:e}", i, s.c1, s.c2, if sq { dref.max(0.0).sqrt() } else { dref }, arg, if sq { m1.max(0.0).sqrt() } else { m1 })); }
+        }
+        rp.merge(c.method, s.c1, s.c2);
+    }
+    None
+}
+
+// ------------------------------------------------------------------ C04
+fn uf_find(p: &mut Vec<usize>, mut x: usize) -> usize { while p[x] != x { p[x] = p[p[x]]; x = p[x]; } x }
+
+fn partition_canon(p: &mut Vec<usize>, n: usize) -> Vec<usize> {
+    // canonical labelling: component id = smallest member
+    let mut small = vec![usize::MAX; p.len()];
+    for i in 0..n { let r = uf_find(p, i); if i < small[r] { small[r] = i; } }
+    (0..n).map(|i| { let r = uf_find(p, i); small[r] }).collect()
+}
+
+fn check_single_exact(c: &AlgoCase, o: &Outcome, all_heights: bool) -> Option<String> {
+    let steps = match o { Outcome::Ok { steps, .. } => steps, Outcome::Panic(k, m) => return Some(format!("panic {} {}", k, m)) };
+    let n = c.n as usize;
+    if n < 2 { return None; }
+    if wf_steps(n, steps).is_some() { return None; }
+    let v = vals_of(c);
+    // Prim on the dense graph, independent of the crate
+    let at = |i: usize, j: usize| -> f64 { let (r, cc) = if i < j { (i, j) } else { (j, i) }; v[(2 * n - r - 3) * r / 2 + cc - 1] };
+    let mut intree = vec![false; n]; let mut key = vec![f64::INFINITY; n]; intree[0] = true;
+    for j in 1..n { key[j] = at(0, j); }
+    let mut w = vec![];
+    for _ in 1..n {
+        let mut best = usize::MAX;
+        for j in 0..n { if !intree[j] && (best == usize::MAX || key[j] < key[best]) { best = j; } }
+        intree[best] = true; w.push(key[best]);
+        for j in 0..n { if !intree[j] { let d = at(best, j); if d < key[j] { key[j] = d; } } }
+    }
+    w.sort_by(|a, b| a.partial_cmp(b).unwrap());
+    let mut hs: Vec<f64> = steps.iter().map(|s| height(c, s)).collect();
+    let hs_sorted = { let mut x = hs.clone(); x.sort_by(|a, b| a.partial_cmp(b).unwrap()); x };
+    for i in 0..w.len() {
+        if w[i].to_bits() != hs_sorted[i].to_bits() && !(w[i] == 0.0 && hs_sorted[i] == 0.0) {
+            return Some(format!("sorted height #{} is {:e} but the MST weight is {:e}", i, hs_sorted[i], w[i]));
+        }
+    }
+    // cuts: for (a sample of) occurring heights, steps <= h vs threshold graph
+    hs.dedup();
+    let pick: Vec<f64> = if all_heights || hs.len() <= 12 { hs.clone() } else { (0..12).map(|k| hs[k * (hs.len() - 1) / 11]).collect() };
+    for &h in &pick {
+        let mut p1: Vec<usize> = (0..2 * n - 1).collect();
+        for (i, s) in steps.iter().enumerate() {
+            if height(c, s) <= h { let (a, b) = (uf_find(&mut p1, s.c1), uf_find(&mut p1, s.c2)); p1[a] = n + i; p1[b] = n + i; }
+        }
+        // a step above h may reference a cluster label created by a step <= h: resolved through p1 already
+        let mut p2: Vec<usize> = (0..n).collect();
+        for i in 0..n { for j in i + 1..n { if at(i, j) <= h { let (a, b) = (uf_find(&mut p2, i), uf_find(&mut p2, j)); if a != b { p2[a] = b; } } } }
+        if partition_canon(&mut p1, n) != partition_canon(&mut p2, n) {
+            return Some(format!("cut at height {:e} differs from the threshold-graph components", h));
+        }
+    }
+    None
+}
+
+fn sweep_single(ctx: &Ctx, rep: &mut Report) {
+    let mut rng = Rng::new(ctx.seed ^ 0xC04);
+    let count = if ctx.big { 1200 } else { 320 };
+    let mut cases: Vec<AlgoCase> = ctx.cases.iter().filter(|c| c.method == 0).cloned().collect();
+    for i in 0..count {
+        let algo = (i % 5) as u8;
+        let wide = i % 3 != 0;
+        let cap: u64 = match (algo, ctx.big) { (4, false) => 40, (4, true) => 90, (_, false) => 150, (_, true) => 500 };
+        let n = if i % 10 == 0 { rng.range(2, 5) } else { rng.range(2, cap) };
+        let fam = ["lattice", "duppoints", "uniform", "negative", "allequal", "neartie", "euclid", "collinear", "pow2", "allzero"][rng.below(10) as usize];
+        let v = matrix_f64(&mut rng, n as usize, fam, wide);
+        cases.push(AlgoCase { algo, method: 0, wide, n, bits: to_bits(&v, wide), family: fam });
+    }
+    // a few big ones (thousands) through the quadratic entry points
+    let bigs: &[u64] = if ctx.big { &[1500, 2500, 4000] } else { &[1200] };
+    for (k, &n) in bigs.iter().enumerate() {
+        let fam = if k % 2 == 0 { "lattice" } else { "uniform" };
+        let v = matrix_f64(&mut rng, n as usize, fam, true);
+        cases.push(AlgoCase { algo: (k % 2) as u8, method: 0, wide: true, n, bits: to_bits(&v, true), family: fam });
+    }
+    for c in cases {
+        tick(&ctx.progress, &format!("{} single n={} {}", ALGO_NAMES[c.algo as usize], c.n, c.family));
+        let out = run_fresh_w(c.wide, c.algo, 0, c.n, &c.bits);
+        rep.evaluations += 1;
+        if c.n >= 3 { rep.nontrivial.insert(c.key()); }
+        if let Some(v) = check_single_exact(&c, &out, c.n <= 60) {
+            rep.violation(format!("C04 violated: {} :: {}", v, shorten(&c)));
+        }
+        if c.n == 4 { rep.sample(format!("{} -> {}", c.describe(), join(&tokens(&out), " "))); }
+    }
+}
+
+// ------------------------------------------------------------------ C06
+/// well separated matrix: a shuffled arithmetic progression (distinct, equal gaps)
+fn separated_matrix(rng: &mut Rng, n: usize, kind: u64) -> Vec<f64> {
+    let len = n * (n - 1) / 2;
+    match kind {
+        0 => { let mut v: Vec<f64> = (0..len).map(|k| 1.0 + k as f64 / len as f64).collect();
+               for i in (1..len).rev() { let j = rng.below(i as u64 + 1) as usize; v.swap(i, j); } v }
+        1 => matrix_f64(rng, n, "euclid", true),
+        _ => matrix_f64(rng, n, "uniform", true),
+    }
+}
+
+fn margins_ok(reference: &[(usize, usize, f64, usize)], margin: f64, need: f64, method: u8) -> bool {
+    if !(margin > need) { return false; }
+    let mut hs: Vec<f64> = reference.iter().map(|s| s.2).collect();
+    if sorts(method) { hs.sort_by(|a, b| a.partial_cmp(b).unwrap()); for i in 1..hs.len() { if hs[i] - hs[i - 1] <= need { return false; } } }
+    true
+}
+
+fn agree(ctx: &Ctx, rep: &mut Report) {
+    let mut rng = Rng::new(ctx.seed ^ 0xC06);
+    let count = if ctx.big { 900 } else { 260 };
+    let mut certified = 0u64; let mut skipped = 0u64;
+    for i in 0..count {
+        let method = (i % 7) as u8;
+        let wide = i % 4 != 0;
+        let cap: u64 = match (wide, ctx.big) { (true, false) => 60, (true, true) => 220, (false, false) => 14, (false, true) => 24 };
+        let n = rng.range(2, cap) as usize;
+        let kind = rng.below(3); let v0 = separated_matrix(&mut rng, n, kind);
+        let bits = to_bits(&v0, wide);
+        let base = AlgoCase { algo: 0, method, wide, n: n as u64, bits, family: "separated" };
+        let v = vals_of(&base);
+        let sc = scale_of(&v);
+        let need = if wide { 1e-10 } else { 2e-3 } * if on_squares(method) { sc * sc } else { sc };
+        let (reference, margin) = reference(n, &v, method);
+        tick(&ctx.progress, &base.describe());
+        if !margins_ok(&reference, margin, need, method) { skipped += 1; continue; }
+        certified += 1;
+        let t = (if wide { 1e-9 } else { 1e-3 }) * sc * (1.0 + (n as f64).log2());
+        for algo in 0..5u8 {
+            if !accepts(algo, method) { continue; }
+            let c = AlgoCase { algo, ..base.clone() };
+            let out = run_fresh_w(wide, algo, method, n as u64, &c.bits);
+            rep.evaluations += 1;
+            if n >= 3 { rep.nontrivial.insert(c.key()); }
+            let steps = match &out { Outcome::Ok { steps, .. } => steps.clone(), Outcome::Panic(k, m) => { rep.violation(format!("C06 violated: panic {} {} :: {}", k, m, shorten(&c))); continue; } };
+            // the reference in relabelled form: sorted methods are emitted by increasing height
+            let mut order: Vec<usize> = (0..reference.len()).collect();
+            if sorts(method) { order.sort_by(|&a, &b| reference[a].2.partial_cmp(&reference[b].2).unwrap()); }
+            let mut relabel: HashMap<usize, usize> = HashMap::new();
+            let mut bad: Option<String> = None;
+            if steps.len() != reference.len() { bad = Some("different number of steps".to_string()); }
+            else { for (pos, &ri) in order.iter().enumerate() {
+                let (a, b, h, sz) = reference[ri];
+                let ra = if a < n { a } else { *relabel.get(&a).unwrap_or(&usize::MAX) };
+                let rb = if b < n { b } else { *relabel.get(&b).unwrap_or(&usize::MAX) };
+                relabel.insert(n + ri, n + pos);
+                let (x, y) = (ra.min(rb), ra.max(rb));
+                let s = &steps[pos];
+                let hh = if on_squares(method) { h.max(0.0).sqrt() } else { h };
+                if (s.c1, s.c2, s.size) != (x, y, sz) { bad = Some(format!("step {}: ({}, {}, size {}) but the reference merges ({}, {}, size {})", pos, s.c1, s.c2, s.size, x, y, sz)); break; }
+                if (height(&c, s) - hh).abs() > t { bad = Some(format!("step {}: height {:e} vs reference {:e}", pos, height(&c, s), hh)); break; }
+            } }
+            if let Some(b) = bad { rep.violation(format!("C06 violated: {} :: {}", b, shorten(&c))); }
+            if n == 4 && algo == 0 { rep.sample(format!("{} -> {}", c.describe(), join(&tokens(&out), " "))); }
+        }
+    }
+    rep.extra.push(("margin_certified".to_string(), certified.to_string()));
+    rep.extra.push(("margin_rejected".to_string(), skipped.to_string()));
+}
+
+// ------------------------------------------------------------------ C09
+fn scale_bits(bits: &[u64], wide: bool, k: i32) -> Vec<u64> {
+    bits.iter().map(|&b| if wide { (f64::from_bits(b) * 2f64.powi(k)).to_bits() } else { (f32::from_bits(b as u32) * 2f32.powi(k)).to_bits() as u64 }).collect()
+}
+
+fn scale(ctx: &Ctx, rep: &mut Report) {
+    let mut rng = Rng::new(ctx.seed ^ 0xC09);
+    let count = if ctx.big { 1500 } else { 400 };
+    let mut cases = ctx.cases.clone();
+    while cases.len() < count + ctx.cases.len() {
+        let algo = rng.below(5) as u8;
+        let method = loop { let m = rng.below(7) as u8; if accepts(algo, m) { break m; } };
+        let wide = rng.below(3) != 0;
+        let cap = if algo == 4 { 30 } else if ctx.big { 120 } else { 60 };
+        let n = rng.range(2, cap);
+        let fam = ["uniform", "lattice", "duppoints", "euclid", "neartie", "allequal", "collinear"][rng.below(7) as usize];
+        let mut v = matrix_f64(&mut rng, n as usize, fam, wide);
+        // keep inside [2^-10, 2^10] so that every tested factor stays in the safe range
+        let sc = scale_of(&v);
+        if sc > 1000.0 { for x in v.iter_mut() { *x /= sc / 1000.0; } }
+        if !wide { for x in v.iter_mut() { if *x != 0.0 && x.abs() < 1e-3 { *x = 1e-3; } } }
+        cases.push(AlgoCase { algo, method, wide, n, bits: to_bits(&v, wide), family: fam });
+    }
+    for c in cases {
+        let ks: &[i32] = if c.wide { &[1, -1, 10, -10, 60, -60, 100, -100] } else { &[1, -1, 7, -7, 18, -18] };
+        tick(&ctx.progress, &c.describe());
+        let base = run_fresh_w(c.wide, c.algo, c.method, c.n, &c.bits);
+        let bs = match &base { Outcome::Ok { steps, .. } => steps.clone(), Outcome::Panic(..) => continue };
+        for &k in ks {
+            let sb = scale_bits(&c.bits, c.wide, k);
+            // the scaled input must be exactly representable back (no under/overflow)
+            if scale_bits(&sb, c.wide, -k) != c.bits { continue; }
+            let out = run_fresh_w(c.wide, c.algo, c.method, c.n, &sb);
+            rep.evaluations += 1;
+            if c.n >= 3 { rep.nontrivial.insert(c.key() ^ (k as u64)); }
+            let os = match &out { Outcome::Ok { steps, .. } => steps.clone(), Outcome::Panic(kk, m) => { rep.violation(format!("C09 violated: panic {} {} at factor 2^{} :: {}", kk, m, k, shorten(&c))); continue; } };
+            let expect: Vec<StepB> = bs.iter().map(|s| StepB { bits: scale_bits(&[s.bits], c.wide, k)[0], ..s.clone() }).collect();
+            // skip if a height left the representable range
+            if scale_bits(&expect.iter().map(|s| s.bits).collect::<Vec<_>>(), c.wide, -k) != bs.iter().map(|s| s.bits).collect::<Vec<_>>() { continue; }
+            if os != expect {
+                let i = (0..os.len().min(expect.len())).find(|&i| os[i] != expect[i]).unwrap_or(0);
+                rep.violation(format!("C09 violated: factor 2^{}: step {} is {:?} but scaling the unscaled result gives {:?} :: {}", k, i, os.get(i), expect.get(i), shorten(&c)));
+            }
+        }
+        if c.n == 4 { rep.sample(format!("{} x 2^k for k in {:?}", c.describe(), ks)); }
+    }
+}
+
+// ------------------------------------------------------------------ C10
+fn apply_g(x: f64, g: u8) -> f64 {
+    match g { 0 => 3.0 * x + 1.0, 1 => x * x * x, 2 => (x / 4.0).exp(), 3 => (x + 2.0).ln(), _ => x }
+}
+
+fn order_case(rep: &mut Report, c: &AlgoCase, gbits: &[u64], gname: &str, map: &dyn Fn(u64) -> u64) {
+    let base = run_fresh_w(c.wide, c.algo, c.method, c.n, &c.bits);
+    let out = run_fresh_w(c.wide, c.algo, c.method, c.n, gbits);
+    rep.evaluations += 1;
+    if c.n >= 3 { rep.nontrivial.insert(c.key() ^ hash64(gbits)); }
+    match (&base, &out) {
+        (Outcome::Ok { steps: bs, .. }, Outcome::Ok { steps: os, .. }) => {
+            let expect: Vec<StepB> = bs.iter().map(|s| StepB { bits: map(s.bits), ..s.clone() }).collect();
+            if *os != expect {
+                let i = (0..os.len().min(expect.len())).find(|&i| os[i] != expect[i]).unwrap_or(0);
+                rep.violation(format!("C10 violated: under g={} step {} is {:?} but g of the original step is {:?} :: {} gbits={}", gname, i, os.get(i), expect.get(i), shorten(c), coq_list(gbits)));
+            }
+        }
+        (Outcome::Ok { .. }, Outcome::Panic(k, m)) => rep.violation(format!("C10 violated: panic {} {} under g={} :: {}", k, m, gname, shorten(c))),
+        _ => {}
+    }
+}
+
+fn order_only(ctx: &Ctx, rep: &mut Report) {
+    let mut rng = Rng::new(ctx.seed ^ 0xC10);
+    let count = if ctx.big { 1200 } else { 350 };
+    let mut cases: Vec<AlgoCase> = ctx.cases.iter().filter(|c| c.method <= 1).cloned().collect();
+    while cases.len() < count {
+        let algo = rng.below(5) as u8;
+        let method = if algo == 1 { 0 } else { rng.below(2) as u8 };
+        let wide = rng.below(3) != 0;
+        let cap = if algo == 4 { 30 } else if ctx.big { 100 } else { 50 };
+        let n = rng.range(2, cap);
+        let fam = ["uniform", "lattice", "duppoints", "euclid", "allequal", "sorted", "revsorted"][rng.below(7) as usize];
+        let v = matrix_f64(&mut rng, n as usize, fam, wide);
+        cases.push(AlgoCase { algo, method, wide, n, bits: to_bits(&v, wide), family: fam });
+    }
+    for c in cases {
+        tick(&ctx.progress, &c.describe());
+        let v = vals_of(&c);
+        for g in 0..5u8 {
+            // table value -> g(value), in the case's width
+            let mut keys: Vec<u64> = c.bits.clone(); keys.sort(); keys.dedup();
+            let mut table: HashMap<u64, u64> = HashMap::new();
+            if g == 4 {
+                // rank transform
+                let mut sorted: Vec<f64> = v.clone(); sorted.sort_by(|a, b| a.partial_cmp(b).unwrap()); sorted.dedup();
+                for (&b, &x) in c.bits.iter().zip(&v) { let r = sorted.iter().position(|&y| y == x).unwrap() as f64; table.insert(b, to_bits(&[r], c.wide)[0]); }
+            } else {
+                for (&b, &x) in c.bits.iter().zip(&v) { table.insert(b, to_bits(&[apply_g(x, g)], c.wide)[0]); }
+            }
+            // g must be strictly increasing and injective on the values after rounding
+            let mut pairs: Vec<(f64, f64)> = c.bits.iter().zip(&v).map(|(b, &x)| { let gb = table[b]; (x, if c.wide { f64::from_bits(gb) } else { f32::from_bits(gb as u32) as f64 }) }).collect();
+            pairs.sort_by(|a, b| a.0.partial_cmp(&b.0).unwrap());
+            let mut ok = pairs.iter().all(|p| p.1.is_finite());
+            for w in pairs.windows(2) { if w[0].0 < w[1].0 && !(w[0].1 < w[1].1) { ok = false; } if w[0].0 == w[1].0 && w[0].1 != w[1].1 { ok = false; } }
+            if !ok { continue; }
+            let gbits: Vec<u64> = c.bits.iter().map(|b| table[b]).collect();
+            let t2 = table.clone();
+            order_case(rep, &c, &gbits, ["3x+1", "x^3", "exp(x/4)", "ln(x+2)", "rank"][g as usize], &move |b| *t2.get(&b).unwrap_or(&u64::MAX));
+        }
+        if c.n == 4 { rep.sample(format!("{} under g in 3x+1, x^3, exp, ln, rank", c.describe())); }
+    }
+    // exhaustively all weak orderings of the entries for n <= 4 (sampled for n = 5)
+    let mut weak = 0u64;
+    for n in 2..=4u64 {
+        let len = (n * (n - 1) / 2) as usize;
+        let mut assign = vec![0usize; len];
+        loop {
+            // `assign` as a surjection onto 0..max: a weak ordering
+            let mx = *assign.iter().max().unwrap();
+            let surj = (0..=mx).all(|r| assign.contains(&r));
+            if surj {
+                weak += 1;
+                for algo in 0..5u8 { for method in 0..2u8 { if !accepts(algo, method) { continue; }
+                    let wide = (weak + algo as u64) % 2 == 0;
+                    let a: Vec<f64> = assign.iter().map(|&r| r as f64).collect();
+                    let b: Vec<f64> = assign.iter().map(|&r| ((r * r) as f64) * 0.37 + 5.0).collect();
+                    let c = AlgoCase { algo, method, wide, n, bits: to_bits(&a, wide), family: "weakorder" };
+                    let gb = to_bits(&b, wide);
+                    let table: HashMap<u64, u64> = c.bits.iter().cloned().zip(gb.iter().cloned()).collect();
+                    order_case(rep, &c, &gb, "r^2*0.37+5", &move |x| *table.get(&x).unwrap_or(&u64::MAX));
+                }}
+            }
+            // next assignment in base len
+            let mut i = 0;
+            loop { if i == len { break; } assign[i] += 1; if assign[i] < len { break; } assign[i] = 0; i += 1; }
+            if i == len { break; }
+        }
+    }
+    rep.extra.push(("weak_orderings_enumerated".to_string(), weak.to_string()));
+}
+
+// ------------------------------------------------------------------ C11
+fn permute(ctx: &Ctx, rep: &mut Report) {
+    let mut rng = Rng::new(ctx.seed ^ 0xC11);
+    let count = if ctx.big { 700 } else { 220 };
+    let mut certified = 0u64;
+    for i in 0..count {
+        let method = (i % 7) as u8;
+        let wide = i % 4 != 0;
+        let cap: u64 = match (wide, ctx.big) { (true, false) => 50, (true, true) => 200, (false, false) => 12, (false, true) => 20 };
+        let n = rng.range(3, cap) as usize;
+        let kind = rng.below(3); let v0 = separated_matrix(&mut rng, n, kind);
+        let bits = to_bits(&v0, wide);
+        let probe = AlgoCase { algo: 0, method, wide, n: n as u64, bits: bits.clone(), family: "separated" };
+        let v = vals_of(&probe);
+        let sc = scale_of(&v);
+        let need = if wide { 1e-10 } else { 2e-3 } * if on_squares(method) { sc * sc } else { sc };
+        let (reference, margin) = reference(n, &v, method);
+        tick(&ctx.progress, &probe.describe());
+        if !margins_ok(&reference, margin, need, method) { continue; }
+        // all heights must be separated too, since the set family is compared by height
+        certified += 1;
+        let t = (if wide { 1e-9 } else { 1e-3 }) * sc * (1.0 + (n as f64).log2());
+        let perms: Vec<Vec<usize>> = vec![
+            (0..n).rev().collect(),
+            (0..n).map(|k| (k + 1) % n).collect(),
+            { let mut p: Vec<usize> = (0..n).collect(); p.swap(0, n - 1); p },
+            { let mut p: Vec<usize> = (0..n).collect(); for k in (1..n).rev() { let j = rng.below(k as u64 + 1) as usize; p.swap(k, j); } p },
+        ];
+        for algo in 0..5u8 {
+            if !accepts(algo, method) { continue; }
+            let c = AlgoCase { algo, ..probe.clone() };
+            let fam0 = match family_of(&c, &run_fresh_w(wide, algo, method, n as u64, &bits)) { Some(f) => f, None => continue };
+            for p in &perms {
+                // matrix of the renumbered observations: new index i is old observation p[i]
+                let mut pb = Vec::with_capacity(bits.len());
+                for a in 0..n { for b in a + 1..n {
+                    let (x, y) = (p[a].min(p[b]), p[a].max(p[b]));
+                    pb.push(bits[(2 * n - x - 3) * x / 2 + y - 1]);
+                }}
+                let out = run_fresh_w(wide, algo, method, n as u64, &pb);
+                rep.evaluations += 1;
+                rep.nontrivial.insert(hash64(&pb) ^ algo as u64);
+                let pc = AlgoCase { bits: pb.clone(), ..c.clone() };
+                let fam1 = match family_of(&pc, &out) { Some(f) => f, None => { rep.violation(format!("C11 violated: permuted run failed :: {}", shorten(&pc))); continue; } };
+                // map back: new index i -> old p[i]
+                let mut back: Vec<(Vec<usize>, f64)> = fam1.into_iter().map(|(s, h)| { let mut m: Vec<usize> = s.iter().map(|&i| p[i]).collect(); m.sort(); (m, h) }).collect();
+                back.sort_by(|a, b| a.0.cmp(&b.0));
+                let mut f0 = fam0.clone(); f0.sort_by(|a, b| a.0.cmp(&b.0));
+                let same = f0.len() == back.len() && f0.iter().zip(&back).all(|(a, b)| a.0 == b.0 && (a.1 - b.1).abs() <= t);
+                if !same { rep.violation(format!("C11 violated: hierarchy changes under permutation {:?} :: {}", if n <= 12 { format!("{:?}", p) } else { "(long)".to_string() }, shorten(&c))); }
+            }
+        }
+        if n == 4 { rep.sample(format!("{} under reversal/rotation/swap/random renumbering", probe.describe())); }
+    }
+    rep.extra.push(("margin_certified".to_string(), certified.to_string()));
+}
+
+/// clusters as sets of observations with their merge heights
+fn family_of(c: &AlgoCase, o: &Outcome) -> Option<Vec<(Vec<usize>, f64)>> {
+    let steps = match o { Outcome::Ok { steps, .. } => steps, _ => return None };
+    let n = c.n as usize;
+    if wf_steps(n, steps).is_some() { return None; }
+    let mut members: Vec<Vec<usize>> = (0..n).map(|i| vec![i]).collect();
+    let mut out = vec![];
+    for s in steps {
+        let mut m = members[s.c1].clone(); m.extend_from_slice(&members[s.c2]); m.sort();
+        out.push((m.clone(), height(c, s)));
+        members.push(m);
+    }
+    Some(out)
+}
+
+// ------------------------------------------------------------------ C07
+fn slot_probe(ctx: &Ctx, rep: &mut Report) {
+    let mut rng = Rng::new(ctx.seed ^ 0xC07);
+    let sizes: Vec<u64> = if ctx.big { vec![2, 3, 4, 5, 6, 7, 9, 12, 17, 33, 64, 100, 257, 700, 1500, 3000] } else { vec![2, 3, 4, 5, 6, 8, 11, 16, 31, 64, 150, 400, 1000] };
+    for &n in &sizes {
+        let len = (n * (n - 1) / 2) as usize;
+        let prs = pairs(n as usize);
+        let slots: Vec<usize> = if len <= 60 { (0..len).collect() } else { let mut s: Vec<usize> = vec![0, 1, len - 1, len - 2, n as usize - 2, n as usize - 1, n as usize]; for _ in 0..(if ctx.big { 24 } else { 10 }) { s.push(rng.below(len as u64) as usize); } s };
+        for &k in &slots {
+            let k2 = if len >= 2 { let mut x = rng.below(len as u64) as usize; if x == k { x = (x + 1) % len; } Some(x) } else { None };
+            let mut v: Vec<f64> = (0..len).map(|i| 100.0 + i as f64).collect();
+            v[k] = 1.0;
+            if let Some(x) = k2 { v[x] = 2.0; }
+            for algo in 0..5u8 {
+                if algo == 4 && n > 150 { continue; }
+                let methods: Vec<u8> = if n <= 16 { (0..7).filter(|&m| accepts(algo, m)).collect() } else { vec![0] };
+                for method in methods {
+                    let wide = (k + algo as usize) % 3 != 0 || n > 1000;
+                    let c = AlgoCase { algo, method, wide, n, bits: to_bits(&v, wide), family: "probe" };
+                    tick(&ctx.progress, &format!("slot probe n={} k={} {}", n, k, ALGO_NAMES[algo as usize]));
+                    let out = run_fresh_w(wide, algo, method, n, &c.bits);
+                    rep.evaluations += 1;
+                    rep.nontrivial.insert(hash64(&[n, k as u64, algo as u64, method as u64]));
+                    let steps = match &out { Outcome::Ok { steps, .. } => steps, Outcome::Panic(kk, m) => { rep.violation(format!("C07 violated: panic {} {} on probe n={} slot={}", kk, m, n, k)); continue; } };
+                    if steps.is_empty() { rep.violation(format!("C07 violated: no steps for probe n={}", n)); continue; }
+                    let (i, j) = prs[k];
+                    let s0 = &steps[0];
+                    if (s0.c1, s0.c2) != (i, j) || height(&c, s0) != 1.0 {
+                        rep.violation(format!("C07 violated: n={} slot {} is pair ({}, {}) but the first step of {} {} {} merges ({}, {}) at {:e}",
+                            n, k, i, j, ALGO_NAMES[algo as usize], METHOD_NAMES[method as usize], if wide { "f64" } else { "f32" }, s0.c1, s0.c2, height(&c, s0)));
+                        continue;
+                    }
+                    if method == 0 && steps.len() >= 2 {
+                        if let Some(x) = k2 {
+                            let (p, q) = prs[x];
+                            let s1 = &steps[1];
+                            let lab = |o: usize| if o == i || o == j { n as usize } else { o };
+                            let want = (lab(p).min(lab(q)), lab(p).max(lab(q)));
+                            if (s1.c1, s1.c2) != want || height(&c, s1) != 2.0 {
+                                rep.violation(format!("C07 violated: n={} slot2={} pair=({}, {}): second step of {} single is ({}, {}) at {:e}, expected {:?} at 2",
+                                    n, x, p, q, ALGO_NAMES[algo as usize], s1.c1, s1.c2, height(&c, s1), want));
+                            }
+                        }
+                    }
+                    if n == 4 && k == 3 && algo == 0 && method == 0 { rep.sample(format!("{} -> {}", c.describe(), join(&tokens(&out), " "))); }
+                }
+            }
+        }
+    }
+}
+
+// ------------------------------------------------------------------ C14
+fn cost(ctx: &Ctx, rep: &mut Report) {
+    let mut rng = Rng::new(ctx.seed ^ 0xC14);
+    let sizes: Vec<u64> = if ctx.big { vec![8, 9, 13, 21, 34, 55, 89, 144, 233, 377, 610, 1000] } else { vec![8, 10, 16, 27, 45, 80, 140, 250, 420] };
+    let mut worst = 0.0f64;
+    let mut cases: Vec<AlgoCase> = ctx.cases.iter().filter(|c| c.method <= 4 && c.algo <= 2 && c.n >= 8).cloned().collect();
+    for &n in &sizes {
+        for fam in ["sorted", "revsorted", "allequal", "lattice", "collinear", "uniform", "neartie", "duppoints", "euclid"] {
+            for method in 0..5u8 { for &algo in &[0u8, 2, 1] {
+                if !accepts(algo, method) { continue; }
+                if algo == 1 && fam != "uniform" && fam != "lattice" { continue; }
+                let wide = rng.below(4) != 0;
+                let v = matrix_f64(&mut rng, n as usize, fam, wide);
+                cases.push(AlgoCase { algo, method, wide, n, bits: to_bits(&v, wide), family: if fam == "sorted" { "sorted" } else if fam == "revsorted" { "revsorted" } else { "other" } });
+            }}
+        }
+    }
+    for c in cases {
+        tick(&ctx.progress, &c.describe());
+        let out = run_fresh_w(c.wide, c.algo, c.method, c.n, &c.bits);
+        rep.evaluations += 1;
+        rep.nontrivial.insert(c.key());
+        if let Outcome::Ok { acc, .. } = out {
+            let bound = 10 * c.n * c.n + 50 * c.n;
+            let ratio = acc as f64 / bound as f64;
+            if ratio > worst { worst = ratio; }
+            if acc > bound { rep.violation(format!("C14 violated: {} matrix accesses > 10n^2+50n = {} :: {}", acc, bound, shorten(&c))); }
+            if c.n == 8 { rep.sample(format!("{} {} n=8 {}: {} accesses (bound {})", ALGO_NAMES[c.algo as usize], METHOD_NAMES[c.method as usize], c.family, acc, bound)); }
+        }
+    }
+    rep.extra.push(("worst_ratio_to_bound".to_string(), format!("{:.4}", worst)));
+    rep.extra.push(("hook_active".to_string(), format!("{}", cfg!(kodama_verif))));
+}
+
+// ------------------------------------------------------------------ C08
+fn reuse(ctx: &Ctx, rep: &mut Report) {
+    let mut rng = Rng::new(ctx.seed ^ 0xC08);
+    let count = if ctx.big { 4000 } else { 600 };
+    let mut all: Vec<(History, Vec<Outcome>)> = vec![];
+    for i in 0..count {
+        let h = history(&mut rng, true);
+        tick(&ctx.progress, &format!("history {}", i));
+        let outs = if h.wide { crate::streams::run_history::<f64>(&h) } else { crate::streams::run_history::<f32>(&h) };
+        for (k, (c, o)) in h.calls.iter().zip(&outs).enumerate() {
+            rep.evaluations += 1;
+            let fresh = run_fresh_w(h.wide, c.algo, c.method, c.n, &c.bits);
+            let same = match (o, &fresh) {
+                (Outcome::Ok { steps: a, obs: oa, after: ma, .. }, Outcome::Ok { steps: b, obs: ob, after: mb, .. }) => a == b && oa == ob && ma == mb,
+                (Outcome::Panic(..), Outcome::Panic(..)) => true,
+                _ => false,
+            };
+            if !same {
+                rep.violation(format!("C08 violated: call #{} of a history on a reused state differs from the same call on fresh objects: reused={} fresh={} :: history {}",
+                    k, join(&tokens(o), " "), join(&tokens(&fresh), " "), crate::streams::history_coq(&h)));
+                break;
+            }
+        }
+        if h.calls.len() >= 3 { rep.nontrivial.insert(hash64(&h.calls.iter().flat_map(|c| vec![c.algo as u64, c.method as u64, c.n, hash64(&c.bits)]).collect::<Vec<_>>())); }
+        if i < 2 { rep.sample(crate::streams::history_coq(&h)); }
+        if i < 64 { all.push((h, outs)); }
+    }
+    // concurrency: the same histories on 16 threads at once must give the same bits
+    let shared = Arc::new(all);
+    let mut handles = vec![];
+    for t in 0..16usize {
+        let sh = shared.clone();
+        handles.push(std::thread::spawn(move || {
+            crate::common::install_panic_hook();
+            let mut bad = vec![];
+            for r in 0..sh.len() {
+                let (h, outs) = &sh[(r + t * 5) % sh.len()];
+                let again = if h.wide { crate::streams::run_history::<f64>(h) } else { crate::streams::run_history::<f32>(h) };
+                let same = again.len() == outs.len() && again.iter().zip(outs.iter()).all(|(a, b)| tokens(a) == tokens(b));
+                if !same { bad.push(crate::streams::history_coq(h)); }
+            }
+            bad
+        }));
+    }
+    let mut threaded = 0u64;
+    for hnd in handles { match hnd.join() { Ok(bad) => { threaded += shared.len() as u64; for b in bad { rep.violation(format!("C08 violated: history gives different bits when run concurrently on 16 threads :: {}", b)); } } Err(_) => rep.violation("C08 violated: worker thread panicked".to_string()) } }
+    rep.evaluations += threaded;
+    rep.extra.push(("histories_on_16_threads".to_string(), threaded.to_string()));
 }
 
 // ------------------------------------------------------------------ C13
@@ -64,14 +793,13 @@ fn shape_sweep(rep: &mut Report, seed: u64, big: bool) {
     for len in 0..=max_len {
         for &n in &ns {
             let algo = rng.below(5) as u8;
-            // rotate entry points deterministically so that all of them see all shapes over the sweep
             for da in 0..(if len <= 40 { 5 } else { 2 }) {
                 let algo = (algo + da) % 5;
                 let method = loop { let m = rng.below(7) as u8; if accepts(algo, m) { break m; } };
                 let wide = rng.below(3) != 0;
                 let use_with = rng.below(2) == 0;
                 let good = wellformed(n, len);
-                if good && n > 40 { continue; } // well-formed big cases are the algo stream's job
+                if good && n > 40 { continue; }
                 let res: Result<usize, (u64, String)> = if wide {
                     let mut m: Vec<f64> = vals[..len].to_vec();
                     if use_with && n < (1 << 40) { catch(|| { call_with::<f64>(algo, method, &mut st64, &mut m, n as usize, &mut d64); d64.len() }) }
